@@ -1,10 +1,15 @@
 package c41
 
 import (
+	"bufio"
 	"crypto/sha256"
 	"encoding/hex"
+	"encoding/json"
+	"errors"
 	"fmt"
+	"io"
 	"os"
+	"os/exec"
 	"path/filepath"
 	"sort"
 	"strings"
@@ -46,6 +51,7 @@ type runner struct {
 	keep    map[int]bool                        // files linked into the program
 	dropped map[int]string                      // files left out: registered reason
 	ids     []string                            // findings that explain the dropped files
+	gen     *generated
 	prog    *program
 	unit    int // index in the program
 	udir    string
@@ -57,8 +63,101 @@ type runner struct {
 type program struct {
 	dir, name, tags string
 	bin, batchF     string
-	conn            *pbt.PeerConn
+	conn            *progConn
 	mu              sync.Mutex
+}
+
+// progConn speaks the JSON-lines protocol of c41run.Main (same as pbt.PeerConn, but it keeps the
+// program's stderr so that a crash of the generated code can be reported with its message).
+type progConn struct {
+	cmd    *exec.Cmd
+	in     io.WriteCloser
+	out    *bufio.Reader
+	stderr *tailBuffer
+}
+
+type tailBuffer struct {
+	mu sync.Mutex
+	b  []byte
+}
+
+func (t *tailBuffer) Write(p []byte) (int, error) {
+	t.mu.Lock()
+	defer t.mu.Unlock()
+	if room := 8000 - len(t.b); room > 0 { // the head: a panic message comes first
+		if len(p) < room {
+			room = len(p)
+		}
+		t.b = append(t.b, p[:room]...)
+	}
+	return len(p), nil
+}
+
+func (t *tailBuffer) String() string {
+	t.mu.Lock()
+	defer t.mu.Unlock()
+	return string(t.b)
+}
+
+func startProg(bin string, env ...string) (*progConn, error) {
+	cmd := exec.Command(bin)
+	cmd.Env = append(os.Environ(), env...)
+	c := &progConn{cmd: cmd, stderr: &tailBuffer{}}
+	cmd.Stderr = c.stderr
+	var err error
+	if c.in, err = cmd.StdinPipe(); err != nil {
+		return nil, err
+	}
+	outp, err := cmd.StdoutPipe()
+	if err != nil {
+		return nil, err
+	}
+	if err := cmd.Start(); err != nil {
+		return nil, err
+	}
+	c.out = bufio.NewReaderSize(outp, 1<<20)
+	return c, nil
+}
+
+var errDied = fmt.Errorf("died")
+
+// Call sends one request and decodes the answer; errDied (wrapped) when the program is gone.
+func (c *progConn) Call(req any, resp any) error {
+	b, err := json.Marshal(req)
+	if err != nil {
+		return fmt.Errorf("harness: %v", err)
+	}
+	if _, err := c.in.Write(append(b, '\n')); err != nil {
+		return fmt.Errorf("%w: write: %v", errDied, err)
+	}
+	for {
+		line, err := c.out.ReadBytes('\n')
+		if err != nil {
+			return fmt.Errorf("%w: read: %v", errDied, err)
+		}
+		if len(line) == 0 || line[0] != '{' {
+			continue
+		}
+		var r struct {
+			OK    json.RawMessage `json:"ok"`
+			Error string          `json:"error"`
+		}
+		if err := json.Unmarshal(line, &r); err != nil {
+			continue
+		}
+		if r.Error != "" {
+			return fmt.Errorf("%s", r.Error)
+		}
+		if resp != nil && r.OK != nil {
+			return json.Unmarshal(r.OK, resp)
+		}
+		return nil
+	}
+}
+
+func (c *progConn) Close() {
+	c.in.Close()
+	c.cmd.Wait()
 }
 
 // unitSpec asks for a runner. Sets linked into one program must not share file paths or full names
@@ -157,6 +256,7 @@ func buildRunners(specs []unitSpec) {
 			continue
 		}
 		r.files = g.files // with go_package: what the generator saw
+		r.gen = g
 		byTags[goTags(r.level)] = append(byTags[goTags(r.level)], r)
 	}
 	tFront := time.Since(t0)
@@ -165,6 +265,7 @@ func buildRunners(specs []unitSpec) {
 		for attempt := 0; attempt < 2 && len(rs) > 0; attempt++ {
 			p := &program{dir: dir, name: fmt.Sprintf("main%s%d", tag, attempt), tags: tag}
 			var imports []string
+			var builders []builderRef
 			var batch c41run.Batch
 			for i, r := range rs {
 				var kept []*descriptorpb.FileDescriptorProto
@@ -174,13 +275,18 @@ func buildRunners(specs []unitSpec) {
 						imports = append(imports, gencode.GoImportPathOf(f))
 					}
 				}
+				if !r.adv {
+					if bs, err := builderRefs(r.gen, r.level, r.keep); err == nil {
+						builders = append(builders, bs...)
+					}
+				}
 				batch.Units = append(batch.Units, c41run.Unit{Level: r.level, Files: schema.Marshal(kept), Expected: expectedDescriptors(kept), Names: !r.adv, WKT: hasWKT(kept)})
 				r.unit = i
 			}
 			p.batchF = filepath.Join(dir, p.name+".json")
 			err := os.WriteFile(p.batchF, mustJSON(batch), 0o644)
 			if err == nil {
-				err = writeMain(dir, p.name, imports)
+				err = writeMain(dir, p.name, imports, builders)
 			}
 			if err != nil {
 				for _, r := range rs {
@@ -242,7 +348,7 @@ func buildRunners(specs []unitSpec) {
 }
 
 func (p *program) start() error {
-	conn, err := pbt.StartPeer(p.bin, "C41_BATCH="+p.batchF)
+	conn, err := startProg(p.bin, "C41_BATCH="+p.batchF)
 	if err != nil {
 		return fmt.Errorf("harness: %v", err)
 	}
@@ -293,15 +399,22 @@ func (r *runner) call(q c41run.Req, resp *c41run.Resp) error {
 	}
 	q.Unit = r.unit
 	err := p.conn.Call(q, resp)
-	if err != nil && (strings.HasPrefix(err.Error(), "peer died") || strings.HasPrefix(err.Error(), "peer write")) {
+	if errors.Is(err, errDied) {
 		p.conn.Close()
+		msg := p.conn.stderr.String()
 		p.conn = nil
-		return fmt.Errorf("the program linked with the generated code died while handling the request (fatal error / os.Exit): %v", err)
+		if i := strings.Index(msg, "\ngoroutine "); i > 0 && i < 1500 {
+			j := i + 1500
+			if j > len(msg) {
+				j = len(msg)
+			}
+			msg = msg[:j]
+		} else if len(msg) > 2500 {
+			msg = msg[:2500]
+		}
+		return fmt.Errorf("the program linked with the generated code died while handling the request (%v): %s", err, msg)
 	}
-	if err != nil {
-		return fmt.Errorf("%s", strings.TrimPrefix(err.Error(), "peer: "))
-	}
-	return nil
+	return err
 }
 
 // ---------------------------------------------------------------------------------------------
@@ -625,7 +738,7 @@ func rtDescriptor(c rtCase) (protoreflect.MessageDescriptor, *protoregistry.Type
 func TestRuntime(t *testing.T) {
 	p := pbt.Prop[rtCase]{
 		Name: "runtime",
-		Rule: "a (schema set, API level) program of sub-check batch, one of its message types, content from the descriptor-directed generator against descriptors built with protodesc from the input (boundary scalars, NaN / -0, maps, oneofs, groups / DELIMITED, extensions of the set, unknown fields; 1 in 5 with invalid UTF-8), a perturbed-but-equivalent reference encoding and a history of 0-8 protoreflect operations. In the program: generated type vs dynamicpb over the descriptor the generated package registered vs the model: full observable state after construction through protoreflect and through the generated setters, every generated getter / Has, proto.Equal both ways, byte-identical deterministic Marshal, Size, cross decoding of deterministic / non-deterministic / reference bytes (lazy decoding on or off) back to the model, CheckInitialized verdicts, identical protojson and prototext output strings and cross parsing, JSON / text round trip to the model, the history in lock step with full-state verification after every operation. non-trivial = >= 3 populated fields and >= 2 distinct shapes, or a history of >= 3 operations",
+		Rule: "a (schema set, API level) program of sub-check batch, one of its message types, content from the descriptor-directed generator against descriptors built with protodesc from the input (boundary scalars, NaN / -0, maps, oneofs, groups / DELIMITED, extensions of the set, unknown fields; 1 in 5 with invalid UTF-8), a perturbed-but-equivalent reference encoding and a history of 0-8 protoreflect operations. In the program: generated type vs dynamicpb over the descriptor the generated package registered vs the model: full observable state after construction through protoreflect, through the generated setters and through the generated builder (<Msg>_builder{...}.Build()), every generated getter / Has, every generated ClearX (removes exactly that field; no effect on an unset field or on another member of a set oneof), proto.Equal both ways, byte-identical deterministic Marshal, Size, cross decoding of deterministic / non-deterministic / reference bytes (lazy decoding on or off) back to the model, CheckInitialized verdicts, identical protojson and prototext output strings and cross parsing, JSON / text round trip to the model, the history in lock step with full-state verification after every operation. non-trivial = >= 3 populated fields and >= 2 distinct shapes, or a history of >= 3 operations",
 		Draw: func(t *rapid.T) rtCase {
 			ds := drawables()
 			d := ds[rapid.IntRange(0, len(ds)-1).Draw(t, "program")]
@@ -640,7 +753,16 @@ func TestRuntime(t *testing.T) {
 			mo.ExtTypes = d.exts
 			c.M = gen.DrawMessage(t, md, mo)
 			if c.Bad8 && !gen.HasInvalidUTF8(md, c.M, mo.Resolver) {
-				c.Bad8 = false
+				// the generator rarely lands on an invalid sequence by itself: break one string
+				for i := range c.M.Fields {
+					fd := model.FieldDesc(md, c.M.Fields[i].Num, mo.Resolver)
+					if fd != nil && fd.Kind() == protoreflect.StringKind && !fd.IsMap() && len(c.M.Fields[i].Vals) > 0 {
+						v := &c.M.Fields[i].Vals[len(c.M.Fields[i].Vals)-1]
+						v.B = append(append([]byte{}, v.B...), 0xff)
+						break
+					}
+				}
+				c.Bad8 = gen.HasInvalidUTF8(md, c.M, mo.Resolver)
 			}
 			eo := model.AllPerturbations
 			eo.Labels = &c.Labels
@@ -695,6 +817,12 @@ func TestRuntime(t *testing.T) {
 			if r.Getters > 0 {
 				cl = append(cl, "generated-getters-compared")
 			}
+			if r.Clears > 0 {
+				cl = append(cl, "generated-clear-methods")
+			}
+			if r.Built > 0 {
+				cl = append(cl, "via-generated-builder")
+			}
 			if r.JSON {
 				cl = append(cl, "json-compared")
 			}
@@ -704,7 +832,7 @@ func TestRuntime(t *testing.T) {
 			sort.Strings(cl)
 			return cl
 		},
-		Quick: 1500, Thorough: 6000,
+		Quick: 6000, Thorough: 25000,
 	}
 	if pbt.Skip() {
 		pbt.Register(p)
